@@ -78,6 +78,8 @@ MISSED = {
     "C10-15": "(as C10-13) no request with a five-octet array index; `odd_requests` added",
     "C06-13": "(harness written on reading the seed's description) one packet at a time only; `route_cross` (two discoveries that cross) added",
     "C06-14": "(as C06-13) stations learned their number before they ever sent; `learn_then_send` added",
+    "C14-17": "(harness extended on reading the seed's description) offsets were below one interval; `recurring[wide offsets]` added",
+    "C14-18": "(as C14-17) nothing ever called core.stop(); `deferred_stop` added",
     "C10-5": "no frame carried a source network; `routed_noise` (garbage claiming a remote source, then a relayed valid request) added",
 }
 
